@@ -30,6 +30,9 @@ type sop struct {
 	full    bool
 	ans     scanAns // the endpoint's answer when it is asked for a plain scan
 	ansFull scanAns // ... and when it is asked for a full scan
+	// cancel: the caller cancels its context while the endpoint is inside
+	// Scan; the endpoint blocks until its context is done, then answers
+	cancel bool
 	// stage
 	req      int    // number of requested paths
 	digests  int    // number of digests handed in (= req unless the caller errs)
@@ -49,6 +52,12 @@ type fake struct {
 	script []sop
 	pos    int
 	tmp    string
+	// entered receives a token when a cancellable Scan has been entered
+	entered chan struct{}
+}
+
+func newFake(script []sop, tmp string) *fake {
+	return &fake{script: script, tmp: tmp, entered: make(chan struct{}, 1)}
 }
 
 func (f *fake) next(kind string) *sop {
@@ -62,8 +71,13 @@ func (f *fake) next(kind string) *sop {
 
 func (f *fake) Poll(ctx context.Context) error { <-ctx.Done(); return nil }
 
-func (f *fake) Scan(_ context.Context, _ *core.Entry, full bool) (*core.Snapshot, error, bool) {
+func (f *fake) Scan(ctx context.Context, _ *core.Entry, full bool) (*core.Snapshot, error, bool) {
 	s := f.next("scan")
+	if s.cancel {
+		// a scan that is preempted: wait for the cancellation, then answer
+		f.entered <- struct{}{}
+		<-ctx.Done()
+	}
 	a := s.ans
 	if full {
 		a = s.ansFull
@@ -250,6 +264,7 @@ func scriptScopes(thorough bool) []scope {
 		{"script", "stage-exh", nStage + 3, fmt.Sprintf("Stage: every request length 1..%d with every subset of the requested paths as the endpoint's answer (all, none, every filtered subsequence), plus an endpoint error, an empty request and a path/digest count mismatch", maxStageN)},
 		{"script", "scan-exh2", scan2, "Scan: every history of length 1..2 over 5 endpoint answers (two populated snapshots, a nil-content snapshot, the zero snapshot, an error with try-again) x full flag (quick) x ancestor nil / a populated tree (thorough; in the quick tier the ancestor alternates with the position)"},
 		{"script", "scan-exh3", scan3, "Scan: every history of length 3 over the same 5 answers (thorough: two ancestor patterns)"},
+		{"script", "scan-cancel", 24, "Scan cancelled by the caller's context while the endpoint is inside Scan: the endpoint then answers an error with try-again true / an error with try-again false / a snapshot, x full flag x (first scan of the session / after a populated scan), each followed by a plain scan (baseline unchanged by the cancelled one unless it delivered content), ancestor nil / populated"},
 		{"script", "trans-exh", 13*3*2 + 1, "Transition: 0..2 results each nil/file/directory x 0..2 problems x missing-files flag, plus an endpoint error"},
 		{"ev", "stage-ev", evStageCount, "StageResponse.ensureValid: request length 0..3 x 0..3 paths x 0..3 signatures x position of one invalid signature (none/first/last) x error set or not"},
 		{"ev", "trans-ev", evTransCount, "TransitionResponse.ensureValid: expected count 0..2 x 0..3 results (one possibly invalid) x 0..2 problems (one possibly invalid)"},
@@ -330,6 +345,23 @@ func genScript(spec CaseSpec) []sop {
 			out = append(out, scanOp(scanAlphabet[k], anc, (pos+variant/2)%2 == 1))
 		}
 		return out
+	case "scan-cancel":
+		i := spec.Idx
+		answers := []scanAns{{err: "scan interrupted", try: true}, {err: "scan cancelled", try: false}, okAns(2)}
+		a := answers[i%3]
+		full := (i/3)%2 == 1
+		after := (i/6)%2 == 1
+		var anc *core.Entry
+		if (i/12)%2 == 1 {
+			anc = ancTree
+		}
+		c := scanOp(a, anc, full)
+		c.cancel = true
+		var out []sop
+		if after {
+			out = append(out, scanOp(okAns(1), nil, false))
+		}
+		return append(out, c, scanOp(okAns(1), anc, false))
 	case "trans-exh":
 		i := spec.Idx
 		if i == 13*3*2 {
@@ -383,7 +415,9 @@ func genScript(spec CaseSpec) []sop {
 					anc = scriptSnaps[5].Content
 				}
 			}
-			out = append(out, scanOp(pick(), anc, r.Intn(3) == 0))
+			so := scanOp(pick(), anc, r.Intn(3) == 0)
+			so.cancel = r.Intn(5) == 0
+			out = append(out, so)
 		case k < 8:
 			n := 1 + r.Intn(6)
 			mask := r.Intn(1 << n)
@@ -429,16 +463,17 @@ func runScript(spec CaseSpec) result {
 	}
 	tmp := filepath.Join(baseDir, "script-empty")
 	must(os.MkdirAll(tmp, 0o755))
+	fakeL, fakeR := newFake(epScript, tmp), newFake(epScript, tmp)
 	clientConn, serverConn := memPipe()
 	tap := &tapConn{Conn: clientConn, up: newTapBuf(), down: newTapBuf()}
 	done := make(chan struct{})
 	go func() {
-		remote.VerifServeOver(&fake{script: epScript, tmp: tmp}, serverConn)
+		remote.VerifServeOver(fakeR, serverConn)
 		serverConn.Close()
 		close(done)
 	}()
 	id := func(s string) string { return s }
-	p := &pair{L: &fake{script: epScript, tmp: tmp}, R: remote.VerifClientOver(tap), obs: newObserver(tap, 0, false),
+	p := &pair{L: fakeL, R: remote.VerifClientOver(tap), obs: newObserver(tap, 0, false),
 		tbl: newTable(), engine: rsync.NewEngine(), normL: id, normR: id, quiesce: clientConn.out.quiesce}
 	defer func() {
 		p.R.Shutdown()
@@ -454,7 +489,20 @@ func runScript(spec CaseSpec) result {
 		}
 		switch s.kind {
 		case "scan":
-			p.scan(s.anc, s.full)
+			if s.cancel {
+				// each caller's context is cancelled once the endpoint behind it
+				// is inside Scan (for the remote path: the server-side endpoint)
+				ctxL, cancelL := context.WithCancel(context.Background())
+				ctxR, cancelR := context.WithCancel(context.Background())
+				go func() { <-fakeL.entered; cancelL() }()
+				go func() { <-fakeR.entered; cancelR() }()
+				p.scanCtx(ctxL, ctxR, s.anc, s.full)
+				cancelL()
+				cancelR()
+				p.tag("scan:cancelled-by-caller")
+			} else {
+				p.scan(s.anc, s.full)
+			}
 		case "stage":
 			paths := make([]string, s.req)
 			for i := range paths {
